@@ -316,7 +316,7 @@ def build(r) -> Built:
         nm, rshape, sp = root_val[i]
         layout = None
         if nm is None:
-            nm = fresh("G")
+            nm = fresh("gg")
             out.append(f'{pad}{nm} = "memref.get_global"() <{{name = @g{i}}}> : () -> {mtype(rshape, elt, None, sp)}')
         cur = nm
         if not roots[i].get("big") and needs_fresh[i] and not path.get("casts"):
@@ -476,7 +476,7 @@ def build(r) -> Built:
     top_paths: list[str] = []
     if r.get("dead") and explicit:
         nm, rshape, sp = root_val[0]
-        if not roots[0].get("big"):
+        if not roots[0].get("big") and nm is not None:
             t0 = mtype(shape, elt, None, sp)
             d1 = fresh("d")
             top_paths.append(f'    {d1} = "memref.memory_space_cast"({nm}) : ({t0}) -> {mtype(shape, elt, None, "L1")}')
@@ -508,7 +508,7 @@ def build(r) -> Built:
     for v in r.get("ret", []):
         nm, rshape, sp = root_val[v % nroots]
         if nm is None:
-            nm = fresh("G")
+            nm = fresh("gg")
             body.append(f'    {nm} = "memref.get_global"() <{{name = @g{v % nroots}}}> : () -> {mtype(rshape, elt, None, sp)}')
         rets.append((nm, rshape, sp))
     ret_names = ", ".join(v for v, _, _ in rets)
@@ -578,7 +578,7 @@ def layout_from_order(tb, order, offset=0):
     return T.layout([[(steps[(d, k)], b) for k, b in enumerate(bs)] for d, bs in enumerate(tb)], offset)
 
 
-CONST_KINDS = ["direct_memref", "direct_tensor", "arith", "global", "subview_global"]
+CONST_KINDS = ["direct_memref", "direct_tensor", "arith", "global", "subview_global", "alloc", "global_uninit"]
 
 
 @st.composite
@@ -598,7 +598,7 @@ def constant_case(draw, tier="quick"):
         tb.append(bs)
     pos = [[d, k] for d, bs in enumerate(tb) for k in range(len(bs))]
     order = list(draw(st.permutations(pos)))
-    return dict(kind=draw(st.sampled_from(CONST_KINDS)), tb=tb, order=order, elt=draw(st.sampled_from([8, 16, 32])),
+    return dict(kind=draw(st.sampled_from(CONST_KINDS[:5] * 3 + CONST_KINDS[5:])), tb=tb, order=order, elt=draw(st.sampled_from([8, 16, 32])),
                 seed=draw(st.integers(0, 4000)), unit_step=draw(st.sampled_from([0, 0, 1, 7])),
                 sub=dict(mult=[draw(st.sampled_from([1, 2, 2, 3])) for _ in range(rank)], tile=[draw(st.integers(0, 2)) for _ in range(rank)]),
                 space=draw(st.sampled_from(["L1", "L3", None])))
@@ -616,7 +616,7 @@ def constant_exhaustive(tier="quick"):
             if len(pos) > 4:
                 continue
             for order in itertools.permutations(pos):
-                for kind in CONST_KINDS:
+                for kind in CONST_KINDS[:5]:
                     n += 1
                     yield dict(kind=kind, tb=tb, order=[list(p) for p in order], elt=[8, 16, 32][n % 3], seed=n % 997, unit_step=0,
                                sub=dict(mult=[2] + [1] * (len(shape) - 1), tile=[(n // 3) % 2] + [0] * (len(shape) - 1)), space=["L1", "L3", None][n % 3])
